@@ -360,3 +360,65 @@ def rule_no_narrowing(ctx, rule, cls, what, minimum=1):
                           "%s is `%s` (%d bits) but %s() assigns it from `%s %s` (%d bits): %s" % (short(fld), mt, mb, f.name, qt, r["decl"][6:], qb, what), (f, ln),
                           why_ok="%s (%d) <- %s (%d)" % (mt, mb, qt, qb))
     ctx.need(rule, "integral members of %s assigned from integral parameters" % short(cls), n, minimum)
+
+
+def rule_no_use_after_move(ctx, rule, scope, what, minimum=1):
+    """G-moved: a local or parameter handed to std::move is not read again before it is given a new value (assignment,
+    clear / reset / assign, or its declaration executed again). scope: predicate on Fn."""
+    prog = ctx.prog
+    nf = 0
+    seen = set()
+    hits = 0
+    for f in sorted(prog.fns.values(), key=lambda g: g.id):
+        if not f.has_cfg or not f.file.startswith("/repo/") or not scope(f):
+            continue
+        key = (f.file, f.line)
+        if key in seen:
+            continue
+        seen.add(key)
+        nf += 1
+        for bid, i, e in f.roots():
+            x = e["expr"]
+            if x.get("k") == "return":
+                continue
+            for n in walk(x):
+                if not (n.get("k") == "call" and (n.get("name") or "") == "std::move" and len(n.get("args", [])) == 1):
+                    continue
+                a = ir.unwrap(n["args"][0])
+                if not (isinstance(a, dict) and a.get("k") == "ref" and a.get("decl", "").split(":")[0] in ("local", "param")):
+                    continue
+                t = (a.get("type") or "")
+                if a.get("bits") or t.rstrip().endswith("*") or t in ("bool", "double", "float", "char"):
+                    continue  # moving a scalar is a copy
+                name = a["decl"]
+
+                def refs(el, name=name):
+                    y = el.get("expr")
+                    return [r for r in walk(y) if isinstance(r, dict) and r.get("k") == "ref" and r.get("decl") == name] if isinstance(y, dict) else []
+
+                def kills(el, name=name):
+                    y = el.get("expr")
+                    if not isinstance(y, dict):
+                        return False
+                    if y.get("k") == "decl" and any("local:" + v["name"] == name for v in y.get("vars", [])):
+                        return True
+                    z = ir.unwrap(y)
+                    if isinstance(z, dict) and z.get("k") in ("bin", "call") and z.get("op") == "=":
+                        l = ir.unwrap(z.get("l") if z.get("k") == "bin" else z.get("this"))
+                        if isinstance(l, dict) and l.get("k") == "ref" and l.get("decl") == name:
+                            return True
+                    if isinstance(z, dict) and z.get("k") == "call" and short(z.get("name") or "") in ("clear", "reset", "assign") and z.get("this") is not None:
+                        l = ir.unwrap(z["this"])
+                        if isinstance(l, dict) and l.get("k") == "ref" and l.get("decl") == name:
+                            return True
+                    return False
+
+                p = cfg.reaches_without(f, (bid, i), lambda el: bool(refs(el)) and not kills(el), kills)
+                if p is not None:
+                    hits += 1
+                    ctx.bad(rule, f, "no-use-after-move:%s:%s" % (short(f.qual), name.split(":", 1)[1]),
+                            "%s reads `%s` after handing it to std::move at line %s (blocks B%s): the moved-from object is empty / unspecified - %s"
+                            % (short(f.qual), name.split(":", 1)[1], n.get("ln"), "->B".join(map(str, p)), what), (f, n.get("ln")))
+    ctx.need(rule, "functions scanned for use after move", nf, minimum)
+    if not hits:
+        ctx.ok(rule, "-", "no-use-after-move:scanned", "%d function(s)" % nf, "-")
